@@ -56,7 +56,10 @@ def real_parse(text, limit=10.0):
             raise
         if is_call:
             c = tree.body
-            call[source[7:-1]] = [len(c.args), [k.arg for k in c.keywords]]
+            if any(isinstance(x, pyast.Starred) for x in c.args) or any(k.arg is None for k in c.keywords):
+                call[source[7:-1]] = "star"
+            else:
+                call[source[7:-1]] = [len(c.args), [k.arg for k in c.keywords]]
         elif is_expr:
             expr[source] = "ok"
         elif isinstance(source, str):
